@@ -49,13 +49,33 @@ def same(a, b):
     if isinstance(a, dict): return list(a) == list(b) and all(same(a[k], b[k]) for k in a)
     return a == b
 for it in range(N):
-    ctx = R.choice(['set_top', 'set_top', 'binding_value', 'list_element', 'item_assign', 'nested_assign', 'binding_ctor', 'from_dict'])
+    ctx = R.choice(['set_top', 'set_top', 'binding_value', 'list_element', 'item_assign', 'nested_assign', 'binding_ctor', 'from_dict', 'ctor_then_assign', 'ctor_then_assign', 'empty_then_assign'])
     try:
         if ctx == 'set_top': v = dct(2); make = lambda: AttributeSet(values=v).rebuild(); want = v
         elif ctx == 'from_dict': v = dct(2); make = lambda: AttributeSet.from_dict(v).rebuild(); want = v
         elif ctx == 'binding_value': x = R.choice([scalar, lambda: lst(1), lambda: dct(1)])(); v = {'k': x}; make = lambda: AttributeSet(values={'k': x}).rebuild(); want = v
         elif ctx == 'list_element': x = lst(2); v = x; make = lambda: NixList(value=x).rebuild(); want = x
         elif ctx == 'binding_ctor': x = R.choice([scalar, lambda: lst(1), lambda: dct(1)])(); v = {'k': x}; make = lambda: AttributeSet(values=[Binding(name='k', value=x)]).rebuild(); want = v
+        elif ctx == 'ctor_then_assign':
+            base = dct(1); extra = {k: scalar() for k in R.sample(['n1', 'n2', 'n3'], R.randint(1, 2))}; how = R.choice(['from_dict', 'values_dict', 'bindings', 'nested'])
+            def make():
+                if how == 'from_dict': s = AttributeSet.from_dict(dict(base))
+                elif how == 'values_dict': s = AttributeSet(values=dict(base))
+                elif how == 'bindings': s = AttributeSet(values=[Binding(name=k, value=x) for k, x in base.items()])
+                else:
+                    top = parse('{ outer = 0; }'); top['outer'] = dict(base)
+                    for k, x in extra.items(): top['outer'][k] = x
+                    return top.rebuild()
+                for k, x in extra.items(): s[k] = x
+                return s.rebuild()
+            v = dict(base); v.update(extra); want = v if how != 'nested' else {'outer': v}; v = want
+        elif ctx == 'empty_then_assign':
+            extra = {k: scalar() for k in R.sample(['a', 'b', 'c'], R.randint(1, 3))}
+            def make():
+                s = parse('')
+                for k, x in extra.items(): s[k] = x
+                return s.rebuild()
+            v = dict(extra); want = v
         elif ctx == 'item_assign':
             x = R.choice([scalar, lambda: lst(1), lambda: dct(1)])(); v = {'a': 1, 'k': x}
             def make():
